@@ -451,14 +451,27 @@ def rule_checked_calls(F, ev, R, config, rule="R-CHECKED-CALLS"):
             rels, raw = g.relations_at(bi)
             ok = any(r[0] == "Ne" for r in rels)
             R.add(rule, config, hb.key, "Err⇔len differs", ok, "" if ok else "length error produced without the lengths differing", s.get("span"))
-    # callers propagate with ?
+    # callers propagate the error (with ?, by returning the Result, through combinators); a function that simply returns the
+    # helper's Result is a wrapper around it, and ITS callers are checked in turn
     n = 0
-    for b in F.bodies.values():
-        for bi, t in b.calls():
-            if "fn" in t and t["fn"].get("key") == hb.key:
-                n += 1
-                ok = result_propagated(b, t["dest"]["l"])
-                R.add(rule, config, b.key, "helper-result-propagated", ok, "" if ok else "the checked evaluation's error is not propagated (with `?`, or as the value a combinator chain hands back to the caller)", t.get("span"))
+    wrappers = [hb.key]
+    seen_w = set()
+    while wrappers:
+        hk = wrappers.pop()
+        if hk in seen_w:
+            continue
+        seen_w.add(hk)
+        for b in F.bodies.values():
+            for bi, t in b.calls():
+                if "fn" in t and (t["fn"].get("resolved_key") or t["fn"].get("key")) == hk:
+                    n += 1
+                    d = t["dest"]
+                    ok = (d["l"] == 0 and not d["proj"]) or result_propagated(b, d["l"])
+                    R.add(rule, config, b.key, "helper-result-propagated", ok, "" if ok else "the checked evaluation's error is not propagated (with `?`, or as the value a combinator chain hands back to the caller)", t.get("span"))
+                    out_ty = b.j.get("output", "")
+                    returned = (d["l"] == 0 and not d["proj"]) or any(c["kind"] == "return" or (c["kind"] == "agg" and c["rv"].get("variant") in ("Some", "Ok")) for c in consumers(b, d["l"]))
+                    if ok and returned and b.kind != "Closure" and ("std::result::Result<" in out_ty or "std::option::Option<" in out_ty):
+                        wrappers.append(b.key)
     R.floor(rule, config, 4, "single site, Ok/Err tables, at least one caller")
 
 
@@ -491,6 +504,12 @@ def result_propagated(b, local, depth=0):
                 return False
         elif c["kind"] == "discr":
             good = True   # matched on: the arms are checked by the value rules
+        elif c["kind"] == "agg" and c["rv"].get("variant") in ("Some", "Ok") and not c["dest"]["proj"]:
+            # wrapped (`Some(result)`): the wrapper value must itself be handed on
+            if c["dest"]["l"] == 0 or result_propagated(b, c["dest"]["l"], depth + 1):
+                good = True
+            else:
+                return False
     return good
 
 
@@ -554,11 +573,19 @@ def rule_model_guards(F, ev, R, config, rule="R-MODEL-GUARDS"):
                     oki = any(r[0] == "Lt" and r[1] == ("param", b.key, 2) and r[2][0] == "call" and r[2][1].endswith("::len") and r[2][3][0] == ("field", me, sm["names"]) for r in rels)
                     R.add(rule, config, b.key, "alloc-needs-index<|names|", oki, "" if oki else "derivative evaluated without the guard index < number of parameters", t.get("span"))
             if name == "eval_partial_deriv":
-                for bi, si, s in b.stmts():
-                    if s["k"] == "assign" and s["rv"]["k"] == "agg" and s["rv"].get("variant") == "DerivativeIndexOutOfBounds":
-                        rels, raw = g.relations_at(bi)
-                        ok = any(r[0] == "Le" and r[2] == ("param", b.key, 2) and r[1][0] == "call" and r[1][1].endswith("::len") and r[1][3][0] == ("field", me, sm["names"]) for r in rels)
-                        R.add(rule, config, b.key, "OutOfBounds⇔index≥|names|", ok, "" if ok else "index error produced without index ≥ number of parameters", s.get("span"))
+                # the index error may be produced in the method or in a private helper it calls (judged in this calling context)
+                sites = [(b, env, bi, s) for bi, si, s in b.stmts() if s["k"] == "assign" and s["rv"]["k"] == "agg" and s["rv"].get("variant") == "DerivativeIndexOutOfBounds"]
+                for hk, envs in helper_contexts(F, ev).items():
+                    for henv in envs:
+                        if context_root(F, henv).key != b.key:
+                            continue
+                        for bi, si, s in henv.body.stmts():
+                            if s["k"] == "assign" and s["rv"]["k"] == "agg" and s["rv"].get("variant") == "DerivativeIndexOutOfBounds":
+                                sites.append((henv.body, henv, bi, s))
+                for sb, senv, bi, s in sites:
+                    rels, raw = context_relations(ev, senv, bi)
+                    ok = any(r[0] == "Le" and r[2] == ("param", b.key, 2) and r[1][0] == "call" and r[1][1].endswith("::len") and r[1][3][0] == ("field", me, sm["names"]) for r in rels)
+                    R.add(rule, config, b.key, "OutOfBounds⇔index≥|names|", ok, "" if ok else "index error produced without index ≥ number of parameters", s.get("span"))
     R.floor(rule, config, 4, "eval guard, deriv guards, error mapping")
 
 
